@@ -14,6 +14,8 @@ def oracle_c01(e, out):
     return
   pr = oracles.well_formed(out.model)
   e.check('C01.well_formed', not pr, info=pr[:4])
+  pr = oracles.dtype_consistent(out.model)
+  e.check('C01.operand_dtypes_consistent', not pr, info=pr[:4])
 
 
 def oracle_c02(e, out):
@@ -40,7 +42,8 @@ def oracle_c08(e, out):
 ORACLES = {'C01': oracle_c01, 'C02': oracle_c02, 'C03': oracle_c03,
            'C08': oracle_c08}
 CONCRETE = {
-    'C01': lambda out: [] if out.raised is not None else oracles.well_formed(out.model),
+    'C01': lambda out: [] if out.raised is not None else (
+        oracles.well_formed(out.model) + oracles.dtype_consistent(out.model)),
     'C02': lambda out: [] if out.raised is not None else oracles.skeleton_iso(
         out.input_model, out.model, P.io_quantized(out)),
     'C03': lambda out: [] if out.raised is not None else oracles.modes(
@@ -54,9 +57,10 @@ def job_skeleton(job):
   prop = job.args['prop']
   skel = job.args['skeleton']
   tier = job.args['tier']
-  fam = P.skeleton_family(tier)
+  fam = P.skeleton_family('thorough_dags' if skel.startswith('dag') else tier)
   mb = fam[skel]
-  recipes = P.recipe_family(mb, tier, shipped_only=(prop == 'C08'))
+  recipes = P.recipe_family(mb, 'quick' if skel.startswith('dag') else tier,
+                            shipped_only=(prop == 'C08'))
   st = Stats()
   cands, inconc, samples = [], [], []
   for rname, recipe in recipes.items():
@@ -75,8 +79,14 @@ def job_skeleton(job):
 
 def make_jobs(prop, tier):
   fam = P.skeleton_family(tier)
-  return [Job(f'skel:{name}', job_skeleton,
-              {'prop': prop, 'skeleton': name, 'tier': tier}) for name in fam]
+  js = [Job(f'skel:{name}', job_skeleton,
+            {'prop': prop, 'skeleton': name, 'tier': tier}) for name in fam]
+  if tier == 'thorough':
+    # seeded family of random DAGs with 2-4 operators (the seed is VERIF_SEED)
+    for name in P.skeleton_family('thorough_dags'):
+      js.append(Job(f'skel:{name}', job_skeleton,
+                    {'prop': prop, 'skeleton': name, 'tier': tier}))
+  return js
 
 
 def classify(prop, probs, skel, rname):
